@@ -439,3 +439,33 @@ Example C04_gen_nonvacuous :
   /\ Helpers.knot_insertion_kv Qops U (3#10)%Q 4 2 = GOk [0; 0; 0; 0; 1#4; 3#10; 3#10; 1#2; 1#2; 3#4; 1; 1; 1; 1]%Q.
 Proof. cbv zeta. repeat split; try (vm_compute; reflexivity); simpl; lia. Qed.
 
+From NV Require Import Gen.PreludeExt Gen.LinalgMat Proofs.GenTieMat Proofs.GenTieMatSolve Proofs.GenTieBinom.
+From NV Require Import Gen.PreludeExt Gen.HelpersB Proofs.GenTieKnotRemove.
+From NV Require Import Gen.HelpersB Proofs.GenTieElev.
+From NV Require Import Model.Geom2D Model.Voxel Gen.PreludeExt Gen.LinalgGeom Gen.Voxelize Proofs.GenTieGeom Proofs.GenTieVoxel
+  Proofs.GenTieHull.
+From NV Require Import Model.Hull Gen.Utilities Proofs.GenTieBBox.
+From NV Require Import Model.Fit Gen.Fitting Proofs.GenTieFit.
+From NV Require Import Model.Derivs Proofs.GenTieDerivCpts.
+From NV Require Import Proofs.GenTieArr4 Proofs.GenTieDerivSurf.
+From NV Require Import Model.KnotRefine Proofs.GenTieRefine.
+From NV Require Import Model.Eval Gen.Evaluators Proofs.GenTieEvalLib Proofs.GenTieEvalCurve Proofs.GenTieEvalSurf Proofs.GenTieEvalVol.
+From NV Require Import Model.Derivs Gen.HelpersC Proofs.GenTieBinom Proofs.GenTieBasisAll Proofs.GenTieEvalDerivCurve Proofs.GenTieEvalDerivCurve2.
+From NV Require Import Proofs.GenTieEvalDerivSurf Proofs.GenTieEvalDerivSurfRat Proofs.GenTieEvalDerivSurf2.
+From NV Require Import Model.Weights Gen.Compatibility Proofs.GenTieCompat.
+From NV Require Import Model.Layout Gen.Compatibility Proofs.GenTieFlip.
+From NV Require Import Model.Layout Model.Voxel Model.Hull Gen.OperationsInternal Proofs.GenTieFindCtrlpts.
+From NV Require Import Model.Layout Model.Hull Gen.OperationsInternal Proofs.GenTieFindCtrlpts.
+
+From NV Require Import Model.InsertKnot Gen.UtilitiesB Proofs.GenTieCheckParams.
+
+(* [G] utilities.check_params: ALL inputs; a parameter is None or a float *)
+Theorem C04_gen_check_params_R : forall (params : list (option R)),
+  UtilitiesB.check_params Rops params = GOk (InsertKnot.params_in_unit Rops params).
+Proof. exact check_params_tie_R. Qed.
+Print Assumptions C04_gen_check_params_R.
+Theorem C04_gen_check_params_Q : forall (params : list (option Q)),
+  UtilitiesB.check_params Qops params = GOk (InsertKnot.params_in_unit Qops params).
+Proof. exact check_params_tie_Q. Qed.
+Print Assumptions C04_gen_check_params_Q.
+
